@@ -184,6 +184,14 @@ fn structured_cases(ctx: &Ctx, scratch: &std::path::Path) -> Vec<Case> {
     add("recursion/macro-self-args", ".macro m\nm @0+1\n.endm\nm 1\n".into());
     add("recursion/macro-mutual", ".macro a\nb\n.endm\n.macro b\na\n.endm\na\n".into());
     add("recursion/macro-self-growing", ".macro m\nnop\nm\nm\n.endm\nm\n".into());
+    // the recursive call sits behind a segment switch / an .org inside the body (later fragments of an expansion)
+    add("recursion/macro-self-behind-segment-switch", ".macro m\nnop\n.dseg\n.byte 1\n.cseg\nm\n.endm\nm\n".into());
+    add("recursion/macro-self-behind-eseg-switch", ".macro m\nnop\n.eseg\n.db 1\n.cseg\nm\n.endm\nm\n".into());
+    add("recursion/macro-self-behind-org", ".macro v\nnop\n.org 0x10\nv\n.endm\nv\n".into());
+    add("recursion/macro-self-first-line-segment-switch", ".macro m\n.dseg\n.cseg\nm\n.endm\nm\n".into());
+    add("recursion/macro-mutual-behind-segment-switches", ".macro a\nnop\n.dseg\n.byte 1\n.cseg\nb\n.endm\n.macro b\nnop\n.eseg\n.db 1\n.cseg\na\n.endm\na\n".into());
+    add("recursion/macro-self-in-conditional", ".macro m\n.if 1\nm\n.endif\n.endm\nm\n".into());
+    add("recursion/macro-self-through-argument", ".macro m\n@0 @0\n.endm\nm m\n".into());
     add("recursion/equ-self", ".equ a = a\n.dw a\n".into());
     add("recursion/equ-self-plus", ".equ a = a + 1\nldi r16, a\n".into());
     add("recursion/equ-mutual", ".equ a = b\n.equ b = a\n.dw a\n".into());
@@ -232,6 +240,13 @@ fn structured_cases(ctx: &Ctx, scratch: &std::path::Path) -> Vec<Case> {
         });
         add(&format!("ladder/macro-arg-paren/{}", d.min(15000)), format!(".macro m\n.dq @0\n.endm\nm {}\n", ladder("(", ")", d.min(15000), "1")));
         add(&format!("ladder/unclosed-paren/{}", d), format!(".dq {}1\n", "(".repeat(d)));
+        // ladders behind text that looks like the start of a comment or string to a naive scanner
+        add(&format!("ladder/paren-after-semicolon-char-literal/{}", d), format!("ldi r16, ';'+{}\n", ladder("(", ")", d, "1")));
+        add(&format!("ladder/paren-after-quote-char-literal/{}", d), format!(".dq '\"'+{}\n", ladder("(", ")", d, "1")));
+        add(&format!("ladder/paren-after-slash-char-literals/{}", d), format!(".dq '/'+'/'+{}\n", ladder("(", ")", d, "1")));
+        add(&format!("ladder/minus-after-string-with-semicolon/{}", d), format!(".db \"a;b\", {}1\n", "-".repeat(d)));
+        add(&format!("ladder/paren-after-apostrophe-in-string/{}", d), format!(".db \"it's\", {}\n", ladder("(", ")", d, "1")));
+        add(&format!("ladder/paren-in-unselected-branch-after-char-literal/{}", d), format!(".if 0\nldi r16, ';'+{}\n.endif\n", ladder("(", ")", d, "1")));
     }
     // absurd sizes and origins
     for (n, t) in [
